@@ -41,11 +41,31 @@ def c18_pycode(w):
     w(f"def qnameModule : List Char := {chars(QName.__module__)}")
     w(f"def qnameName : List Char := {chars(QName.__qualname__)}")
     w(f"def noneTypeName : List Char := {chars(type(None).__qualname__)}")
+    ser = code.PycodeSerializer()
+
+    def rendered(obj):
+        return "".join(ser.repr_object(obj, 0, set()))
+
     E = enum.Enum("E7", {"A7": 1})
-    a, rest = around(str(E.A7), "E7", "str(Enum member)")
-    b, c = around(rest, "A7", "str(Enum member)")
+    a, rest = around(rendered(E.A7), "E7", "rendered Enum member")
+    b, c = around(rest, "A7", "rendered Enum member")
     if a or c:
-        raise RuntimeError("C18 tables: unexpected str(Enum member) shape")
+        raise RuntimeError("C18 tables: unexpected shape of a rendered Enum member")
     w(f"def enumStrSep : List Char := {chars(b)}")
+    # a member of an enum nested in a class (fix 1242bcb: __qualname__)
+    N = enum.Enum("E7", {"A7": 1}, qualname="O7.E7")
+    w(f"def enumNestedProbe : List Char := {chars(rendered(N.A7))}")
+    # layout of every array kind, empty and not (fix e20b710: tuples keep their brackets)
+    probes = [(1,), [1], {1}, frozenset({1}), (), [], set(), frozenset(), {}, {1: 1}]
+    w(f"def reprProbes : List (List Char) := {strs([rendered(o) for o in probes])}")
+    # what literal_value puts between QName(" and ") for every ASCII character (fix 3837894: json.dumps)
+    pre, post = around(literal_value(QName("X7")), "X7", "literal_value(QName)")
+    esc = []
+    for i in range(128):
+        t = literal_value(QName(chr(i)))
+        if not (t.startswith(pre) and t.endswith(post)):
+            raise RuntimeError("C18 tables: unexpected literal_value(QName) shape")
+        esc.append(t[len(pre):len(t) - len(post)])
+    w(f"def qnameEscAscii : List (List Char) := {strs(esc)}")
     w(f"def builtinNames : List (List Char) := {strs(sorted(dir(builtins)))}")
     w("")
